@@ -265,7 +265,9 @@ class IRSpec:
                 if v[0] in ('key', 'str'): return cont(s, v)
                 return se.exit(s, 'TypeError')
             return se.ev(st, e.args[0], k)
-        if fname in ('str', 'type', 'repr'):
+        if fname == 'type' and len(e.args) == 1:
+            return se.ev(st, e.args[0], lambda s, v: cont(s, ('type', v[1]) if v[0] == 'ref' else ('str', '?')))
+        if fname in ('str', 'repr'):
             return cont(st, ('str', '?'))
         if fname in ('deepcopy', 'copy'):
             return se.ev(st, e.args[0], cont)
@@ -408,6 +410,33 @@ class IRSpec:
                 sF = s.fork(); sF.pc += [noexc, quant(Implies(member, okF), True)]
                 if se.sat(sF): cont(sF, B(BoolVal(False)))
         return se.ev(st, gen.iter, k)
+
+    value_equality = False
+
+    def veq(self, a, b):
+        from z3 import Function
+        if not hasattr(self, '_veq'):
+            c = self.ctx
+            self._veq = Function('veq', c.Ref, c.Ref, BoolSort())
+            x, y, z = Const('xq_v', c.Ref), Const('yq_v', c.Ref), Const('zq_v', c.Ref)
+            c.axioms += [ForAll([x], self._veq(x, x), patterns=[self._veq(x, x)]),
+                         ForAll([x, y], self._veq(x, y) == self._veq(y, x), patterns=[self._veq(x, y)]),
+                         ForAll([x, y, z], Implies(And(self._veq(x, y), self._veq(y, z)), self._veq(x, z)),
+                                patterns=[MultiPattern(self._veq(x, y), self._veq(y, z))])]
+        return self._veq(a, b)
+
+    def string_method(self, se, st, recv, name, args):
+        from z3 import Function
+        c = self.ctx
+        if not hasattr(self, '_smeth'): self._smeth = {}
+        key = (name, tuple(a[1] if a[0] == 'str' else '?' for a in args))
+        if name in ('startswith', 'endswith'):
+            f = self._smeth.setdefault(key, Function('str_%s_%d' % (name, len(self._smeth)), c.Ref, BoolSort()))
+            return B(f(recv[1]))
+        f = self._smeth.setdefault(key, Function('str_%s_%d' % (name, len(self._smeth)), c.Ref, c.Ref))
+        r = f(recv[1])
+        st.pc.append(c.cls(r) == c.C['Foreign'])
+        return R(r)
 
     def contract_for(self, se, st, fi):
         """modular call: constructors of the data-carrying classes are used through their (separately proved) contract
